@@ -396,6 +396,51 @@ class _PureLocals:
     flags (`is_last = i == n - 1`) and hoisted sub-expressions read as the code without them."""
     PURE = (ast.Name, ast.Attribute, ast.Constant, ast.BinOp, ast.Compare, ast.BoolOp, ast.UnaryOp,
             ast.operator, ast.cmpop, ast.boolop, ast.unaryop, ast.expr_context)
+    # package-wide facts, set by Program before the modules are canonicalised:
+    #   REBOUND - attribute names assigned (or deleted / augmented) anywhere outside __init__/__new__
+    #   PROPS   - property name -> name of the attribute it returns (`return self._x`), or None when it computes something
+    REBOUND = set()
+    PROPS = {}
+    HARMLESS_CALLS = {'len', 'isinstance', 'issubclass', 'min', 'max', 'int', 'float', 'str', 'bool', 'abs', 'range', 'tuple', 'sorted',
+                      'getattr', 'hasattr', 'id', 'repr', 'type', 'callable', 'frozenset'}
+
+    @classmethod
+    def collect(cls, trees):
+        rebound, props = set(), {}
+        for t in trees:
+            for fn in [n for n in ast.walk(t) if isinstance(n, (ast.FunctionDef, ast.AsyncFunctionDef))]:
+                if any((isinstance(d, ast.Name) and d.id in ('property', 'cached_property')) or (isinstance(d, ast.Attribute) and d.attr in ('cached_property',)) for d in fn.decorator_list):
+                    body = [s for s in fn.body if not (isinstance(s, ast.Expr) and isinstance(s.value, ast.Constant))]
+                    und = None
+                    if len(body) == 1 and isinstance(body[0], ast.Return) and isinstance(body[0].value, ast.Attribute) \
+                            and isinstance(body[0].value.value, ast.Name) and body[0].value.value.id == 'self':
+                        und = body[0].value.attr
+                    props[fn.name] = und if props.get(fn.name, und) == und else None
+                if fn.name in ('__init__', '__new__'):
+                    continue
+                for x in ast.walk(fn):
+                    if isinstance(x, ast.Attribute) and not isinstance(x.ctx, ast.Load):
+                        rebound.add(x.attr)
+                    elif isinstance(x, ast.AugAssign) and isinstance(x.target, ast.Attribute):
+                        rebound.add(x.target.attr)
+        cls.REBOUND, cls.PROPS = rebound, props
+
+    def _binding_stable(self, v):
+        """The expression denotes the same value whenever it is evaluated during one call: it reads only attributes
+        that are bound once (in __init__) - directly or through a trivial property - and does not look inside a
+        container (in / not in)."""
+        for x in ast.walk(v):
+            if isinstance(x, ast.Attribute):
+                a = x.attr
+                if a in self.PROPS:
+                    a = self.PROPS[a]
+                    if a is None:
+                        return False
+                if a in self.REBOUND:
+                    return False
+            elif isinstance(x, (ast.In, ast.NotIn)):
+                return False
+        return True
 
     def run(self, tree):
         for fn in [n for n in ast.walk(tree) if isinstance(n, (ast.FunctionDef, ast.AsyncFunctionDef))]:
@@ -445,6 +490,19 @@ class _PureLocals:
                     out.append(id(n))
             return out
         single = {n for n, ss in stores.items() if len(ss) == 1 and n not in params and n not in nested}
+        barriers = []
+        for x in ast.walk(fn):
+            if isinstance(x, ast.Call):
+                fname = x.func.id if isinstance(x.func, ast.Name) else None
+                if fname in self.HARMLESS_CALLS:
+                    continue
+                if isinstance(x.func, ast.Attribute) and isinstance(x.func.value, ast.Name) and x.func.value.id in ('logger', 'logging', 'math', 'os.path'):
+                    continue
+                barriers.append(x)
+            elif isinstance(x, (ast.Yield, ast.YieldFrom, ast.Await)):
+                barriers.append(x)
+            elif isinstance(x, (ast.Attribute, ast.Subscript)) and not isinstance(x.ctx, ast.Load):
+                barriers.append(x)
         changed = False
         for name in sorted(single):
             st = parent.get(id(stores[name][0]))
@@ -470,6 +528,7 @@ class _PureLocals:
                     continue
                 probe = [v]
             dpos0 = order[id(st)]
+            span = sum(1 for _ in ast.walk(st)) 
             uses0 = loads.get(name, [])
             last_use = max([order[id(u)] for u in uses0], default=dpos0)
 
@@ -494,11 +553,28 @@ class _PureLocals:
             dpos = order[id(st)]
             read_attrs = {x.attr for x in ast.walk(v) if isinstance(x, ast.Attribute)}
             ok = True
+            volatile = not all(self._binding_stable(e) for e in probe) and any(isinstance(x, ast.Attribute) or isinstance(x, (ast.In, ast.NotIn)) for e in probe for x in ast.walk(e))
             for u in uses:
                 upos = order[id(u)]
                 if upos < dpos or loops_of(u) != loops_of(st) and not set(loops_of(st)) <= set(loops_of(u)):
                     ok = False
                     break
+                if volatile:
+                    # the value read at the definition may have changed by the time of the use if anything ran in between:
+                    # a call completed before the use (not one the use is an argument of), a yield, or any store through an
+                    # attribute / subscript.  Moving the read to the use would then hide a value captured too early.
+                    anc = set()
+                    a_ = u
+                    while id(a_) in parent:
+                        a_ = parent[id(a_)]
+                        anc.add(id(a_))
+                    for b_ in barriers:
+                        bp = order[id(b_)]
+                        if dpos < bp < upos and id(b_) not in anc and not (order[id(st)] <= bp <= order[id(st)] + span):
+                            ok = False
+                            break
+                    if not ok:
+                        break
                 for a in read_attrs:
                     for s_ in attr_stores.get(a, []):
                         sp = order[id(s_)]
@@ -909,6 +985,7 @@ class Program:
         self.rename_notes = derename(trees)
         self.inliner = Inliner(trees, inline)
         self.inliner.run()
+        _PureLocals.collect(trees.values())
         for name, rel in rels.items():
             self.modules[name] = Module(name, rel, sources[rel], trees[name])
         for m in self.modules.values():
